@@ -182,6 +182,16 @@ theorem unknown (fuel : Nat) (pre : List Op) (c : Nat) (r : SymRef)
 
 example : (step 1 (run 1 State.init [.newLazy [(1, .direct f0)]]).1 (.on 0 (.can s0))).2 = .bool false := by decide
 
+/-- nested classes (`Reader.Setting` = 500, `Writer.Setting` = 501) are different symbols with different paths: binding
+    one leaves the other unknown; a LazyDI *definition* of a nested class can be seen but never materialised, because its
+    path is not an import path (`load_module_path` raises ModuleNotFoundError) -/
+example :
+    (run 3 State.init [.newLazy [(501, .direct f15)], .on 0 (.bind ⟨500, false⟩ f0), .on 0 (.can ⟨500, false⟩),
+      .on 0 (.resolve ⟨500, false⟩), .on 0 (.can ⟨501, false⟩), .on 0 (.resolve ⟨501, false⟩), .on 0 (.unbind ⟨501, false⟩),
+      .on 0 (.resolve ⟨500, false⟩), .on 0 (.resolve ⟨501, false⟩)]).2
+    = [.cont 0, .ok, .bool true, .obj ⟨0, 0, []⟩, .bool true, .err .moduleNotFound, .ok, .obj ⟨0, 0, []⟩, .err .valueError] := by
+  decide
+
 /-- ... and `invoke` of a factory whose first annotated parameter cannot be resolved, without remaining arguments,
     raises ValueError — on every call. -/
 theorem unknown_invoke (fuel : Nat) (pre : List Op) (c : Nat) (f : Factory) (a : SymRef) (rest : List SymRef)
